@@ -202,7 +202,7 @@ class LogRow(list):
         list.__setitem__(self, k, v)
 
 
-def make_rural(src, dst, variant=None, wind2=False, boundary=None):
+def make_rural(src, dst, variant=None, wind2=False, boundary=None, sep=None):
     """Copy of a shipped EPW whose wind column holds a value pattern that differs between neighbouring
     rows and between rows 24 apart: w_k = ((7k) mod 120) / 10 (some below windMin = 1); with `wind2` the
     pattern has two decimals, ((37k + 5) mod 1200) / 100. `variant`: header / leap variant of s1_util.
@@ -219,13 +219,20 @@ def make_rural(src, dst, variant=None, wind2=False, boundary=None):
     if boundary:
         import t1_util as T1
         T1.boundary_window(rows, 8 + boundary[0], boundary[1], shift=boundary[2], table=T1.MILD, every=3)
+    if sep:
+        # `sep` = (character, place): a character that only SOME line splitters take for a line end, in unquoted
+        # header text (x1_util.SEP_PLACES); the file is written as plain UTF-8 text lines
+        import x1_util as X1
+        rows, _ = X1.sep_header(rows, sep[0], sep[1])
+        X1.write_text_epw(rows, dst)
+        return k
     # written as plain text lines like the shipped files (no cell of a data row needs quoting)
     S.save_epw(rows, dst)
     return k
 
 
 def real_run(chk, M, D, days, dt, epw_name, variant=None, precision=None, windmin=None, wind2=False,
-             second=True, boundary=None):
+             second=True, boundary=None, sep=None):
     """Full simulation + write_epw on a rural file with a patterned wind column.
     Returns (cases for the `wrow` tie, oracle message or None, stamps_ok, data rows).
 
@@ -239,9 +246,12 @@ def real_run(chk, M, D, days, dt, epw_name, variant=None, precision=None, windmi
     work = chk.work()
     leap = bool(variant) and 'leap8784' in variant
     tag = '%d_%d_%d_%s' % (M, D, dt, ''.join(c for c in (variant or 'base') if c.isalnum())[:24])
+    if sep:
+        tag += '_sep%x' % ord(sep[0])
     rural = os.path.join(work, 'rural_%s_%s' % (tag, epw_name))
     nrows = make_rural(simdriver.epw_path(epw_name), rural, variant, wind2,
-                       (24 * doy0(M, D), 24 * days, boundary) if boundary is not None else None)
+                       (24 * doy0(M, D), 24 * days, boundary) if boundary is not None else None,
+                       sep=tuple(sep) if sep else None)
 
     def build(outname):
         m = UWG.from_param_file(simdriver.param_path(), epw_path=rural, new_epw_dir=work, new_epw_name=outname)
@@ -787,6 +797,89 @@ def window_length_family(chk, thorough):
                mismatches=len(bad), branches={'SimParam': n1, 'end probes': n2})
 
 
+# ----------------------------------------------------------------------------------------------
+# header text with characters that only SOME line splitters take for line ends (the C01 family, judged here by the
+# row-stamp oracle): the header must stay eight rows, hour n the row stamped start + n hours
+
+def linebreak_family(chk, thorough):
+    import s1_util as S
+    import x1_util as X1
+    rng = chk.rng
+    base_rows = S.load_epw(simdriver.epw_path())
+    work = chk.work()
+    seps = X1.line_breaks()
+    places = [p for p, _ in X1.SEP_PLACES]
+    if thorough:
+        combos = [(c, p) for c in seps for p in places[:3]] + [(rng.choice(seps), p) for p in places[3:]]
+    else:
+        cs = rng.sample(seps[:5], 2) + rng.sample(seps[5:], 2)
+        combos = list(zip(cs, rng.sample(places[:3], 3) + [rng.choice(places[3:])]))
+    late = [d for d in dates() if d != (1, 1)]
+    cases, bad, nruns, br = [], [], 0, {}
+    for i, (c, place) in enumerate(combos):
+        rows, k = X1.sep_header(base_rows, c, place)
+        path = X1.write_text_epw(rows, os.path.join(work, 'c02sep_%d.epw' % i))
+        # what a text-file csv reader makes of the file: still 8 header rows (an input assumption, checked)
+        with open(path, newline='', encoding='utf-8') as f:
+            parsed = list(csv.reader(f))
+        if len(parsed) != len(rows) or parsed[8][:6] != rows[8][:6]:
+            chk.notes.append('line-break family: file %d is not 8 header rows + records for a text-file reader' % i)
+            continue
+        for (M, D) in [rng.choice(late), rng.choice([d for d in late if d[0] >= 3])][:2 if thorough else 1]:
+            days = min(365 - doy0(M, D), rng.randint(1, 2))
+            cfg = (M, D, days, rng.choice([d for d in DIVISORS if d >= 100]))
+            nrow, res, err = drive(cfg, epw=path, rows=rows)
+            nruns += 1
+            br['U+%04X' % ord(c)] = br.get('U+%04X' % ord(c), 0) + 1
+            base = 'drv dt=%d M=%d D=%d days=%d file=%d' % (cfg[3], M, D, days, len(rows) - 8)
+            if err:
+                cases.append((base, err))
+                bad.append((cfg, c, place, ('generate/simulate raised on a legal rural file', err, 'a complete run')))
+                continue
+            h, rh = digests(res)
+            cases.append((base, 'ok steps=%d digest=%d nrec=%d rdigest=%d' % (len(res.steps), h, len(res.records), rh)))
+            msg = res.window_msg or oracle_driver(cfg, res)
+            if msg:
+                bad.append((cfg, c, place, msg))
+    chk.correspond(
+        'simulate(driver-only)~driver on rural files with line-break-like characters in header text', 'C02', cases,
+        rule='as tie 1, on copies of the Singapore file whose UNQUOTED header text (LOCATION city, COMMENTS 1 / 2, '
+             'DESIGN CONDITIONS source, DATA PERIODS name; one or two per file) holds a vertical tab, form feed, FS, GS, RS, '
+             'NEL, U+2028 or U+2029 - ordinary cell content for a csv reader fed by a text file, a line end for '
+             'str.splitlines(); start dates other than 1 January; the model is the SAME driver (the header stays 8 rows)',
+        classify=lambda line, impl: impl.split(' ')[0])
+    for cfg, c, place, msg in bad[:3]:
+        chk.violation('impl-violation', 'C02 window/row oracle on a rural file whose header text holds the character %r' % c,
+                      case={'month': cfg[0], 'day': cfg[1], 'nday': cfg[2], 'dtsim': cfg[3], 'epw': simdriver.EPWS[0],
+                            'header_character': 'U+%04X' % ord(c), 'header_place': place},
+                      observed={'what': msg[0], 'value': msg[1]}, expected=msg[2],
+                      how='x1_util.sep_header(load_epw(Singapore), chr, place) -> x1_util.write_text_epw; '
+                          'simdriver.build_model(month, day, nday, dtsim, epw=file); c02.window_oracle')
+    # one un-stubbed run + write_epw: forcing records, rows written and their stamps in the written file
+    real = []
+    for rep in range(1 if not thorough else 3):
+        c, place = rng.choice(seps), rng.choice(places[:4])
+        (M, D) = rng.choice([d for d in late if d != (12, 31)])
+        opts = dict(sep=(c, place), second=False)
+        cs, msg, stamps_ok, nrows = real_run(chk, M, D, 1, 300, simdriver.EPWS[0], **opts)
+        real.append(msg)
+        if msg:
+            chk.violation('impl-violation', 'C02 oracle on generate+simulate+write_epw (header text holds %r)' % c,
+                          case={'month': M, 'day': D, 'nday': 1, 'dtsim': 300,
+                                'epw': simdriver.EPWS[0] + ' with wind column w_k=((7k) mod 120)/10',
+                                'options': dict(sep=[c, place], second=False)},
+                          observed={'what': msg[0], 'value': msg[1]}, expected=msg[2])
+    nb = len(bad) + len([m for m in real if m])
+    chk.direct('window+row-oracle(header text with VT / FF / FS GS RS / NEL / U+2028 / U+2029)', nruns + len(real),
+               nruns + len(real),
+               'rural files whose unquoted header text holds a character that str.splitlines() (not a text-file csv '
+               'reader) takes for a line end, start dates other than 1 January: after generate() the window bounds are '
+               'the rows STAMPED start .. start + 24*nday - 1 hours and the forcing lists hold those rows\' values; row '
+               'oracle of tie 1 on the driver-only run; one un-stubbed run + write_epw (thorough: 3): WeatherData[n] is the '
+               'row stamped start + n hours, its result is written to that row, every other row unchanged',
+               mismatches=nb, branches=br)
+
+
 def stamp_dt(k):
     """EPW hour-ending stamp of data row k from datetime: the row describes the hour beginning k hours
     after 1 Jan 00:00; month/day of that instant, hour number 1..24."""
@@ -973,6 +1066,7 @@ def run(chk):
     boundary_runs(chk, thorough)
     circumstance_runs(chk, thorough)
     window_length_family(chk, thorough)
+    linebreak_family(chk, thorough)
     # the doubles named in theorem asis_float_rowidx_wrong are the ones CPython computes
     import math
     ph = 48 / 3600.
